@@ -133,7 +133,7 @@ def iprobe_programs(draw):
             k = draw(st.sampled_from(["iprobe", "iprobe", "put", "get"]))
             mb = draw(st.integers(0, nmb - 1))
             if k == "iprobe":
-                ops[a].append(["iprobe", mb, draw(st.integers(0, 1)), draw(st.sampled_from([0, 1, 7, -1, 123456]))])
+                ops[a].append(["mc_iprobe", mb, draw(st.integers(0, 1)), draw(st.sampled_from([0, 1, 7, -1, 123456]))])
             elif k == "put":
                 ops[a].append(["put_async", mb, 1, {}, 100 * a + len(ops[a])])
             else:
